@@ -1329,6 +1329,7 @@ _ADAPT = [
     (r"Result::<T, E>::map$", "res", 1, {"Ok": ("wrap", RES, 0, "Ok", "call"), "Err": ("wrap", RES, 1, "Err", "payload")}),
     (r"Result::<T, E>::map_err$", "res", 1, {"Ok": ("wrap", RES, 0, "Ok", "payload"), "Err": ("wrap", RES, 1, "Err", "call")}),
     (r"Result::<T, E>::and_then$", "res", 1, {"Ok": ("call",), "Err": ("wrap", RES, 1, "Err", "payload")}),
+    (r"cmp::Ordering::then_with$", "ord", 1, {"Equal": ("call0",), "other": ("same",)}),
     (r"<impl bool>::then$|bool::then$", "bool", 1, {"false": ("wrap", OPT, 0, "None", "none"), "true": ("wrap", OPT, 1, "Some", "call0")}),
 ]
 
@@ -1436,7 +1437,7 @@ def expand_adaptors(body, depth=3):
             cb = mir.bodies.get(cname)
             if cb is None or cb.get("coroutine"):
                 continue
-            variants = {"opt": [("None", 0), ("Some", 1)], "res": [("Ok", 0), ("Err", 1)], "bool": [("false", 0), ("true", 1)]}[kind]
+            variants = {"opt": [("None", 0), ("Some", 1)], "res": [("Ok", 0), ("Err", 1)], "bool": [("false", 0), ("true", 1)], "ord": [("Equal", 0), ("other", None)]}[kind]
             dl = new_local("isize")
             first_new = len(blocks)
             unr = None
@@ -1488,6 +1489,9 @@ def expand_adaptors(body, depth=3):
             blocks.append({"stmts": [], "term": {"k": "unreachable", "line": line}, "cleanup": False})
             if kind == "bool":
                 blocks[bi]["term"] = {"k": "switch", "discr": {"copy": {"l": recv["l"], "p": []}}, "dty": "bool", "targets": [["0", entry["false"]]], "otherwise": entry["true"], "line": line, "exp": False}
+            elif kind == "ord":
+                blocks[bi]["stmts"].append(assign({"l": dl, "p": []}, {"k": "discr", "place": {"l": recv["l"], "p": []}, "of": aty}))
+                blocks[bi]["term"] = {"k": "switch", "discr": {"move": {"l": dl, "p": []}}, "dty": "i8", "targets": [["0", entry["Equal"]]], "otherwise": entry["other"], "line": line, "exp": False}
             else:
                 blocks[bi]["stmts"].append(assign({"l": dl, "p": []}, {"k": "discr", "place": {"l": recv["l"], "p": []}, "of": aty}))
                 blocks[bi]["term"] = {"k": "switch", "discr": {"move": {"l": dl, "p": []}}, "dty": "isize",
